@@ -13,7 +13,8 @@ import (
 )
 
 // canonical token form of RESP values, shared with run/driver.ml:
-//   S<hex> E<hex> I<dec> B<hex> Bn An A<k> v1 .. vk
+//
+//	S<hex> E<hex> I<dec> B<hex> Bn An A<k> v1 .. vk
 func fmtVal(b *strings.Builder, v *redis.RespValue) {
 	switch v.Type {
 	case redis.SimpleString:
